@@ -712,7 +712,7 @@ func runC12(c *ctx) {
 		c12Eval(c, c12Case{Op: "ascii", Str: string(b), Where: []string{"factory", "fill"}[r.Intn(2)]})
 	}
 	// variable names
-	nameParts := []string{"a", "Z", "_", "9", "0", "x1", "[", "]", "[0]", "[12]", "[]", "[a]", "[-1]", "[ 1]", "[1 ]", ".", "...", " ", "\t", "\n", "-", "é", "漢", "́", " ", "१", "$", "", "[0][1]", "ab_9", "\x00", "\xff"}
+	nameParts := []string{"\u212a", "\u017f", "\u0131", "\u0130", "\uff21", "a", "Z", "_", "9", "0", "x1", "[", "]", "[0]", "[12]", "[]", "[a]", "[-1]", "[ 1]", "[1 ]", ".", "...", " ", "\t", "\n", "-", "é", "漢", "́", " ", "१", "$", "", "[0][1]", "ab_9", "\x00", "\xff"}
 	seen := map[string]bool{}
 	tryName := func(n string) {
 		if !seen[n] {
